@@ -547,7 +547,7 @@ PROPS = {
         audit_modules=["RodbusModel.Audit.C17"],
         required_theorems=["Rodbus.C17.silent_unless_addressed", "Rodbus.C17.broadcast_write", "Rodbus.C17.broadcast_read_ignored",
                            "Rodbus.C17.broadcast_never_answered", "Rodbus.C17.unit0_ordinary_on_tcp",
-                           "Rodbus.C17.silent_unless_addressed_or_denied", "Rodbus.C17.denied_answered_even_if_unconfigured"],
+                           "Rodbus.C17.silent_unless_addressed_or_denied", "Rodbus.C17.denied_answered_even_if_unconfigured", "Rodbus.C01W.broadcast_survives_write_fault", "Rodbus.C01W.foreign_frames_invisible_to_fault"],
         suites=[dict(gen="srv_edge", n=(1, 1), exhaustive="every kind of broadcast / unicast write while an application thread holds the handler mutex of one unit"), dict(gen="srv_rtu", n=(3000, 200000)), dict(gen="srv_tcp", n=(800, 50000)), dict(gen="srv_auth", n=(600, 50000)), dict(gen="pty_srv", n=(120, 1500), jobs=16)],
         level_text="Proof: silent_unless_addressed (for EVERY pdu - valid, failing in the handler or malformed - a frame for an unconfigured, "
                    "non-broadcast address yields no reply and no call), broadcast_write (RTU destination 0, valid write => exactly one write call per "
